@@ -51,3 +51,39 @@ func TestC14CaseInsensitiveDuplicateAcrossStatements(t *testing.T) {
 		t.Errorf("unique index: second insert of 'A' after 'a' gave %v; table is %s", err, show(mustRun(t, e, ctx, "SELECT * FROM cu")))
 	}
 }
+
+// ---- C14-P memory.pkTableEditAccumulator.GetByCols/latest-edit-wins -------------------------
+// GetByCols consults the pending deletes before the pending adds: a row that was rewritten earlier in the
+// same statement (Delete + Insert) hides its own unique value from the duplicate check of later rows.
+// A multi-row UPDATE that rewrites row 1 (its unique value 10 stays) and then moves row 2 onto
+// the same unique value must fail with a duplicate-key error.
+func TestC14UniqueKeyAfterRewriteInSameStatement(t *testing.T) {
+	e, ctx := newEngine(t)
+	mustRun(t, e, ctx, "CREATE TABLE t (pk INT PRIMARY KEY, u INT, v INT, UNIQUE KEY uk (u))")
+	mustRun(t, e, ctx, "INSERT INTO t VALUES (1,10,0),(2,20,0)")
+	_, err := run(t, e, ctx, "UPDATE t SET v = v + 1, u = 10")
+	rows := mustRun(t, e, ctx, "SELECT pk, u, v FROM t ORDER BY pk")
+	if err == nil {
+		t.Fatalf("UPDATE producing two rows with u = 10 under UNIQUE KEY(u) succeeded; table now: %s", show(rows))
+	}
+	t.Logf("rejected as expected: %v; table: %s", err, show(rows))
+}
+
+// INSERT ... ON DUPLICATE KEY UPDATE: the first tuple rewrites row 1 in place (u stays 10), the
+// second tuple is a new row with the same unique value.
+func TestC14UniqueKeyAfterODKUInSameStatement(t *testing.T) {
+	e, ctx := newEngine(t)
+	mustRun(t, e, ctx, "CREATE TABLE t (pk INT PRIMARY KEY, u INT, v INT, UNIQUE KEY uk (u))")
+	mustRun(t, e, ctx, "INSERT INTO t VALUES (1,10,0)")
+	_, err := run(t, e, ctx, "INSERT INTO t VALUES (1,10,1) ON DUPLICATE KEY UPDATE v = 7")
+	if err != nil {
+		t.Fatalf("single ODKU: %v", err)
+	}
+	_, err = run(t, e, ctx, "INSERT INTO t VALUES (1,10,1),(2,10,5) ON DUPLICATE KEY UPDATE v = v + 100")
+	rows := mustRun(t, e, ctx, "SELECT pk, u, v FROM t ORDER BY pk")
+	cnt := mustRun(t, e, ctx, "SELECT count(*) FROM t WHERE u + 0 = 10")
+	t.Logf("err=%v table=%s count(u=10)=%s", err, show(rows), show(cnt))
+	if len(rows) > 1 && rows[0][1] == rows[1][1] {
+		t.Fatalf("two rows share the unique value: %s", show(rows))
+	}
+}
